@@ -112,7 +112,8 @@ class Features:
     style_names: bool = True
     enum_first_zero_bias: bool = True
     enum_first_zero: bool = False  # first member is always 0 (keeps recorded finding D4b out of a check)
-    keyword_field_names: bool = True  # a field called `type`, rarely
+    keyword_field_names: bool = False  # a field called `type`, rarely (encoding checks switch it on)
+    extremes: bool = False  # rare extremes of the documented limits: capacity 65535, 255 fields, deep nesting (encoding checks switch it on)
     signed_nonstd: bool = True  # signed widths other than 8/16/32/64
     typedef_syntax: bool = False  # deprecated `typedef T Name` spelling of an alias, sometimes
     max_bytes_option: bool = False  # `option max_bytes = N` (N >= the message's size) on some messages
@@ -423,7 +424,7 @@ class _Builder:
                 f.items.append(Import(x, as_name))
         big = feat.big and d(st.integers(0, 24)) == 0
         self.special = None
-        if feat.big and d(st.integers(0, 59)) == 0:
+        if feat.extremes and d(st.integers(0, 59)) == 0:
             self.special = d(st.sampled_from(["huge_array", "many_fields", "deep"]))
         ndefs = d(st.integers(1, feat.max_defs))
         kinds = []
